@@ -145,61 +145,71 @@ Section Sim.
     destruct (0 <? sg); [reflexivity | apply orb_comm].
   Qed.
 
-  (* linework *)
-  Definition map_tring (t : tring) : tring := (fst t, map T (snd t)).
-  Definition map_lw (lw : linework) : linework :=
-    {| lw_rings := map map_tring (lw_rings lw);
-       lw_self := map (fun te => (map_tring (fst te), map ME (snd te))) (lw_self lw);
-       lw_cross := map (fun tue => (map_tring (fst (fst tue)), map_tring (snd (fst tue)), map ME (snd tue))) (lw_cross lw) |}.
+  (* rings by value *)
+  Lemma seq_eqb_map : forall a b, seq_eqb (map T a) (map T b) = seq_eqb a b.
+  Proof.
+    intros a b. unfold seq_eqb. rewrite !map_length. f_equal.
+    rewrite combine_map. apply forallb_map_comm. intros [x y]. cbn [fst snd]. apply (sim_inj _ _ _ S).
+  Qed.
+  Lemma others_map : forall r rs, others (map T r) (map (map T) rs) = map (map T) (others r rs).
+  Proof. intros. unfold others. apply filter_map_comm. intros u. rewrite seq_eqb_map. reflexivity. Qed.
+  Lemma is_dup_map : forall r rs, is_dup (map T r) (map (map T) rs) = is_dup r rs.
+  Proof.
+    intros. unfold is_dup. rewrite (filter_map_comm (map T) _ (seq_eqb r)) by (intros; apply seq_eqb_map).
+    rewrite map_length. reflexivity.
+  Qed.
+  Lemma poly_eqb_map : forall a b, poly_eqb (map_poly T a) (map_poly T b) = poly_eqb a b.
+  Proof.
+    intros [s hs] [s' hs']. unfold poly_eqb, map_poly. cbn [fst snd]. rewrite seq_eqb_map, !map_length. f_equal.
+    rewrite combine_map. apply forallb_map_comm. intros [x y]. cbn [fst snd]. apply seq_eqb_map.
+  Qed.
+  Lemma other_polys_map : forall a ps, other_polys (map_poly T a) (map (map_poly T) ps) = map (map_poly T) (other_polys a ps).
+  Proof. intros. unfold other_polys. apply filter_map_comm. intros b. rewrite poly_eqb_map. reflexivity. Qed.
+  Lemma map_hp_map : forall l, map hp (map T l) = map Th (map hp l).
+  Proof. intros. rewrite !map_map. apply map_ext. intros. symmetry. apply (sim_hp _ _ _ S). Qed.
+
+  (* rules 5 and 6 *)
+  Lemma touch_nodes_map : forall r rest, touch_nodes (map T r) (map (map T) rest) = map T (touch_nodes r rest).
+  Proof.
+    intros. unfold touch_nodes. rewrite self_events_map, touch_pts_map.
+    rewrite (flat_map_map_comm (map T) T _ (fun u => touch_pts (cross_events r u)))
+      by (intros u; rewrite cross_events_map; apply touch_pts_map).
+    rewrite <- map_app. apply nodup_pts_map.
+  Qed.
+  Lemma node_cross_map : forall r rest p, node_cross (map T r) (map (map T) rest) (T p) = node_cross r rest p.
+  Proof.
+    intros. unfold node_cross. rewrite passes_at_map.
+    rewrite (flat_map_map_comm (map T) T2 _ (passes_at p)) by (intros; apply passes_at_map).
+    rewrite pairs_map. f_equal.
+    - apply existsb_map_comm. intros a. apply existsb_map_comm. intros b. apply pass_cross_map.
+    - apply existsb_map_comm. intros [a b]. cbn [fst snd]. rewrite !pass_cross_map. reflexivity.
+  Qed.
+  Lemma ring_bad_map : forall ar r, ring_bad (map (map T) ar) (map T r) = map Th (ring_bad ar r).
+  Proof.
+    intros. unfold ring_bad. cbv zeta. rewrite others_map, is_dup_map, self_events_map, bad_pts_map, touch_nodes_map.
+    rewrite !map_app. f_equal. f_equal; [|f_equal].
+    - apply flat_map_map_comm. intros u. rewrite cross_events_map. apply bad_pts_map.
+    - destruct (is_dup r ar); [apply map_hp_map | reflexivity].
+    - rewrite (filter_map_comm T _ (node_cross r (others r ar))) by (intros; apply node_cross_map).
+      apply map_hp_map.
+  Qed.
+  Lemma self_intersection_set_map : forall ar, self_intersection_set (map (map T) ar) = map Th (self_intersection_set ar).
+  Proof. intros. unfold self_intersection_set. apply flat_map_map_comm. intros. apply ring_bad_map. Qed.
+  Lemma ring_self_set_map : forall r, ring_self_set (map T r) = map Th (ring_self_set r).
+  Proof. intros. unfold ring_self_set. rewrite self_events_map, bad_pts_map, touch_pts_map, map_app, map_hp_map. reflexivity. Qed.
+  Lemma ring_self_intersection_set_map : forall ar, ring_self_intersection_set (map (map T) ar) = map Th (ring_self_intersection_set ar).
+  Proof. intros. unfold ring_self_intersection_set. apply flat_map_map_comm. intros. apply ring_self_set_map. Qed.
+
   Lemma poly_is_empty_map : forall a, poly_is_empty (map_poly T a) = poly_is_empty a.
   Proof. intros [[|p s] hs]; reflexivity. Qed.
   Lemma live_polys_map : forall ps, live_polys (map (map_poly T) ps) = map (map_poly T) (live_polys ps).
   Proof. intros. unfold live_polys. apply filter_map_comm. intros. rewrite poly_is_empty_map. reflexivity. Qed.
   Lemma nonempty_map : forall {A B} (f : A -> B) l, nonempty (map f l) = nonempty l.
   Proof. intros A B f [|a l]; reflexivity. Qed.
-  Lemma tag_rings_map : forall ps, tag_rings (map (map_poly T) ps) = map map_tring (tag_rings ps).
-  Proof.
-    intros ps. unfold tag_rings. rewrite live_polys_map, index_from_map.
-    apply flat_map_map_comm. intros [i a]. cbn [fst snd].
-    unfold poly_rings, map_poly. cbn [fst snd].
-    change (map T (fst a) :: map (map T) (snd a)) with (map (map T) (fst a :: snd a)).
-    rewrite index_from_map.
-    rewrite (filter_map_comm _ _ (fun jr : nat * seq => nonempty (snd jr))) by (intros [j r]; cbn [fst snd]; apply nonempty_map).
-    rewrite !map_map. apply map_ext. intros [j r]. unfold map_tring. cbn [fst snd].
-    rewrite (dedup_map T (sim_inj _ _ _ S)). reflexivity.
-  Qed.
-  Lemma linework_of_map : forall ps, linework_of (map (map_poly T) ps) = map_lw (linework_of ps).
-  Proof.
-    intros ps. unfold linework_of, map_lw. cbn [lw_rings lw_self lw_cross]. rewrite tag_rings_map. f_equal.
-    - rewrite !map_map. apply map_ext. intros t. unfold tr_pts, map_tring. cbn [fst snd]. rewrite self_events_map. reflexivity.
-    - rewrite pairs_map, !map_map. apply map_ext. intros [t u]. unfold tr_pts, map_tring. cbn [fst snd].
-      rewrite cross_events_map. reflexivity.
-  Qed.
-  Lemma all_events_map : forall lw, all_events (map_lw lw) = map ME (all_events lw).
-  Proof.
-    intros lw. unfold all_events, map_lw. cbn [lw_self lw_cross]. rewrite map_app. f_equal.
-    - apply flat_map_map_comm. intros [t e]. reflexivity.
-    - apply flat_map_map_comm. intros [[t u] e]. reflexivity.
-  Qed.
-  Lemma node_cross_pts_map : forall lw, node_cross_pts (map_lw lw) = map T (node_cross_pts lw).
-  Proof.
-    intros lw. unfold node_cross_pts. rewrite all_events_map, touch_pts_map, nodup_pts_map.
-    apply filter_map_comm. intros p.
-    change (lw_rings (map_lw lw)) with (map map_tring (lw_rings lw)).
-    rewrite (flat_map_map_comm map_tring T2 _ (fun t => passes_at p (tr_pts t)))
-      by (intros t; unfold tr_pts, map_tring; cbn [snd]; apply passes_at_map).
-    rewrite pairs_map. apply existsb_map_comm. intros [a b]. cbn [fst snd]. apply pass_cross_map.
-  Qed.
-  Lemma self_intersection_set_map : forall lw, self_intersection_set (map_lw lw) = map Th (self_intersection_set lw).
-  Proof.
-    intros. unfold self_intersection_set. rewrite all_events_map, bad_pts_map, node_cross_pts_map, map_app, !map_map.
-    f_equal. apply map_ext. intros. symmetry. apply (sim_hp _ _ _ S).
-  Qed.
-  Lemma ring_self_intersection_set_map : forall lw, ring_self_intersection_set (map_lw lw) = map Th (ring_self_intersection_set lw).
-  Proof.
-    intros. unfold ring_self_intersection_set, map_lw. cbn [lw_self]. apply flat_map_map_comm. intros [t e]. cbn [snd].
-    rewrite bad_pts_map, touch_pts_map, map_app, !map_map. f_equal. apply map_ext. intros. symmetry. apply (sim_hp _ _ _ S).
-  Qed.
+  Lemma poly_rings_map : forall a, poly_rings (map_poly T a) = map (map T) (poly_rings a).
+  Proof. intros [s hs]. reflexivity. Qed.
+  Lemma all_rings_map : forall dps, all_rings (map (map_poly T) dps) = map (map T) (all_rings dps).
+  Proof. intros. unfold all_rings. apply flat_map_map_comm. intros. apply poly_rings_map. Qed.
 
   (* ring inside ring *)
   Lemma edge_samples_map : forall vs s, edge_samples (map T vs) (T2 s) = map Th (edge_samples vs s).
@@ -221,14 +231,6 @@ Section Sim.
     intros. unfold ring_inside. rewrite ring_samples_map. apply forallb_map_comm. intros q.
     rewrite (sim_in_ring_h _ _ _ S). reflexivity.
   Qed.
-  Lemma dedup_poly_map : forall a, dedup_poly (map_poly T a) = map_poly T (dedup_poly a).
-  Proof.
-    intros [s hs]. unfold dedup_poly, map_poly. cbn [fst snd]. rewrite (dedup_map T (sim_inj _ _ _ S)). f_equal.
-    rewrite (filter_map_comm _ _ (@nonempty pt)) by (intros; apply nonempty_map).
-    rewrite !map_map. apply map_ext. intros. apply (dedup_map T (sim_inj _ _ _ S)).
-  Qed.
-  Lemma map_hp_map : forall l, map hp (map T l) = map Th (map hp l).
-  Proof. intros. rewrite !map_map. apply map_ext. intros. symmetry. apply (sim_hp _ _ _ S). Qed.
   Lemma hole_outside_set_map : forall a, hole_outside_set (map_poly T a) = map Th (hole_outside_set a).
   Proof.
     intros [s hs]. unfold hole_outside_set, map_poly. cbn [fst snd]. apply flat_map_map_comm. intros h.
@@ -236,32 +238,32 @@ Section Sim.
   Qed.
   Lemma nested_holes_set_map : forall a, nested_holes_set (map_poly T a) = map Th (nested_holes_set a).
   Proof.
-    intros [s hs]. unfold nested_holes_set, map_poly. cbn [fst snd]. rewrite index_from_map.
-    apply flat_map_map_comm. intros [i h]. cbn [fst snd].
-    rewrite (existsb_map_comm _ _ (fun jg : nat * seq => negb (Nat.eqb i (fst jg)) && ring_inside h (snd jg)))
-      by (intros [j g]; cbn [fst snd]; rewrite ring_inside_map; reflexivity).
+    intros [s hs]. unfold nested_holes_set, map_poly. cbn [fst snd]. apply flat_map_map_comm. intros h.
+    rewrite others_map. rewrite (existsb_map_comm (map T) _ (ring_inside h)) by (intros; apply ring_inside_map).
     destruct (existsb _ _); [apply map_hp_map | reflexivity].
   Qed.
-  Lemma loc_poly_h_unfold : forall q a, loc_poly_h q a =
-    match in_ring_h q (fst a) with
-    | Exterior => Exterior
-    | Boundary => Boundary
-    | Interior =>
-        if existsb (fun h => location_eqb (in_ring_h q h) Boundary) (snd a) then Boundary
-        else if existsb (fun h => location_eqb (in_ring_h q h) Interior) (snd a) then Exterior
-        else Interior
-    end.
+  Lemma on_path_scale_h : forall x y w r, on_path (x, y) (map (scale_pt w) r) = location_eqb (in_ring_h (x, y, w) r) Boundary.
   Proof.
-    intros [[x y] w] [s hs]. unfold loc_poly_h, loc_poly, map_poly, in_ring_h. cbn [fst snd].
-    rewrite !(existsb_map_comm (map (scale_pt w)) _ (fun h => location_eqb (in_ring (x, y) (map (scale_pt w) h)) Boundary)) by reflexivity.
-    rewrite !(existsb_map_comm (map (scale_pt w)) _ (fun h => location_eqb (in_ring (x, y) (map (scale_pt w) h)) Interior)) by reflexivity.
+    intros. unfold in_ring_h, in_ring. destruct (on_path (x, y) (map (scale_pt w) r)); [reflexivity|].
+    destruct (Z.odd _); reflexivity.
+  Qed.
+  Lemma loc_poly_h_unfold : forall q a, loc_poly_h q a =
+    if existsb (fun r => location_eqb (in_ring_h q r) Boundary) (poly_rings a) then Boundary
+    else if location_eqb (in_ring_h q (fst a)) Interior
+            && negb (existsb (fun h => location_eqb (in_ring_h q h) Interior) (snd a)) then Interior
+    else Exterior.
+  Proof.
+    intros [[x y] w] [s hs]. unfold loc_poly_h, loc_poly, map_poly, poly_rings. cbn [fst snd].
+    change (map (scale_pt w) s :: map (map (scale_pt w)) hs) with (map (map (scale_pt w)) (s :: hs)).
+    rewrite (existsb_map_comm (map (scale_pt w)) _ (fun r => location_eqb (in_ring_h (x, y, w) r) Boundary)) by (intros; apply on_path_scale_h).
+    rewrite (existsb_map_comm (map (scale_pt w)) _ (fun h => location_eqb (in_ring_h (x, y, w) h) Interior)) by reflexivity.
     reflexivity.
   Qed.
   Lemma loc_poly_h_map : forall q a, loc_poly_h (Th q) (map_poly T a) = loc_poly_h q a.
   Proof.
-    intros q [s hs]. rewrite !loc_poly_h_unfold. unfold map_poly. cbn [fst snd].
+    intros q a. rewrite !loc_poly_h_unfold, poly_rings_map. destruct a as [s hs]. unfold map_poly. cbn [fst snd].
     rewrite (sim_in_ring_h _ _ _ S).
-    rewrite (existsb_map_comm (map T) _ (fun h => location_eqb (in_ring_h q h) Boundary)) by (intros; rewrite (sim_in_ring_h _ _ _ S); reflexivity).
+    rewrite (existsb_map_comm (map T) _ (fun r => location_eqb (in_ring_h q r) Boundary)) by (intros; rewrite (sim_in_ring_h _ _ _ S); reflexivity).
     rewrite (existsb_map_comm (map T) _ (fun h => location_eqb (in_ring_h q h) Interior)) by (intros; rewrite (sim_in_ring_h _ _ _ S); reflexivity).
     reflexivity.
   Qed.
@@ -275,46 +277,30 @@ Section Sim.
   Qed.
   Lemma nested_shells_set_map : forall ps, nested_shells_set (map (map_poly T) ps) = map Th (nested_shells_set ps).
   Proof.
-    intros ps. unfold nested_shells_set. rewrite index_from_map. apply flat_map_map_comm. intros [i a]. cbn [fst snd].
-    rewrite (existsb_map_comm _ _ (fun jb : nat * poly => negb (Nat.eqb i (fst jb)) && shell_in_poly a (snd jb)))
-      by (intros [j b]; cbn [fst snd]; rewrite shell_in_poly_map; reflexivity).
+    intros ps. unfold nested_shells_set. apply flat_map_map_comm. intros a.
+    rewrite other_polys_map. rewrite (existsb_map_comm (map_poly T) _ (shell_in_poly a)) by (intros; apply shell_in_poly_map).
     destruct (existsb _ _); [apply map_hp_map | reflexivity].
   Qed.
 
   (* connected interior *)
-  Let TN (n : pt * list nat) : pt * list nat := (T (fst n), snd n).
-  Lemma touch_graph_map : forall lw i, touch_graph (map_lw lw) i = map TN (touch_graph lw i).
+  Lemma ring_touch_pts_map : forall r rest, ring_touch_pts (map T r) (map (map T) rest) = map T (ring_touch_pts r rest).
   Proof.
-    intros lw i. unfold touch_graph. cbv zeta.
-    change (lw_rings (map_lw lw)) with (map map_tring (lw_rings lw)).
-    change (lw_cross (map_lw lw)) with (map (fun tue : tring * tring * list event => (map_tring (fst (fst tue)), map_tring (snd (fst tue)), map ME (snd tue))) (lw_cross lw)).
-    rewrite (filter_map_comm map_tring _ (fun t => Nat.eqb (tr_poly t) i)) by reflexivity.
-    rewrite (flat_map_map_comm _ T _ (fun tue : tring * tring * list event => let '(t, u, evs) := tue in
-                 if Nat.eqb (tr_poly t) i && Nat.eqb (tr_poly u) i then touch_pts evs else []))
-      by (intros [[t u] e]; cbn [fst snd]; unfold tr_poly, map_tring; cbn [fst snd];
-          destruct (Nat.eqb (fst (fst t)) i && Nat.eqb (fst (fst u)) i); [apply touch_pts_map | reflexivity]).
-    rewrite nodup_pts_map, !map_map. apply map_ext. intros p. unfold TN. cbn [fst snd]. f_equal.
-    rewrite (filter_map_comm map_tring _ (fun t => on_path p (tr_pts t))).
-    - rewrite map_map. reflexivity.
-    - intros t. unfold tr_pts, map_tring. cbn [snd]. apply (on_path_cov T (sim_on_seg _ _ _ S)).
+    intros. unfold ring_touch_pts.
+    rewrite (flat_map_map_comm (map T) T _ (fun u => touch_pts (cross_events r u)))
+      by (intros u; rewrite cross_events_map; apply touch_pts_map).
+    apply nodup_pts_map.
   Qed.
-  Lemma prune_step_map : forall g, prune_step (map TN g) = map TN (prune_step g).
+  Lemma prune_step_map : forall rs, prune_step (map (map T) rs) = map (map T) (prune_step rs).
   Proof.
-    intros g. unfold prune_step. cbv zeta.
-    rewrite (filter_map_comm TN _ (fun n => Nat.leb 2 (length (snd n)))) by reflexivity.
-    rewrite !map_map. apply map_ext. intros n. unfold TN. cbn [fst snd]. f_equal.
-    apply filter_ext. intros i. f_equal.
-    rewrite (filter_map_comm _ _ (fun n0 : pt * list nat => existsb (Nat.eqb i) (snd n0))) by reflexivity.
-    apply map_length.
+    intros rs. unfold prune_step. apply filter_map_comm. intros r.
+    rewrite others_map, ring_touch_pts_map, map_length. reflexivity.
   Qed.
-  Lemma prune_map : forall fuel g, prune fuel (map TN g) = map TN (prune fuel g).
-  Proof. induction fuel as [|f IH]; intros g; [reflexivity|]. cbn [prune]. rewrite prune_step_map. apply IH. Qed.
-  Lemma cycle_nodes_map : forall lw i, cycle_nodes (map_lw lw) i = map T (cycle_nodes lw i).
+  Lemma prune_map : forall fuel rs, prune fuel (map (map T) rs) = map (map T) (prune fuel rs).
+  Proof. induction fuel as [|f IH]; intros rs; [reflexivity|]. cbn [prune]. rewrite prune_step_map. apply IH. Qed.
+  Lemma cycle_nodes_map : forall rs, cycle_nodes (map (map T) rs) = map T (cycle_nodes rs).
   Proof.
-    intros. unfold cycle_nodes. cbv zeta. rewrite touch_graph_map, map_length.
-    change (lw_rings (map_lw lw)) with (map map_tring (lw_rings lw)). rewrite map_length, prune_map.
-    rewrite (filter_map_comm TN _ (fun n => Nat.leb 2 (length (snd n)))) by reflexivity.
-    rewrite !map_map. reflexivity.
+    intros. unfold cycle_nodes. cbv zeta. rewrite map_length, prune_map.
+    apply flat_map_map_comm. intros r. rewrite others_map. apply ring_touch_pts_map.
   Qed.
   Lemma area2_map : forall r, area2 (map T r) = sg * area2 r.
   Proof.
@@ -338,22 +324,23 @@ Section Sim.
     intros p side a b. unfold pass_on_interior_side, T2. cbn [fst snd].
     destruct (0 <? sg) eqn:E; destruct side; cbn [CompOpp]; rewrite ?in_sector_map, ?E; reflexivity.
   Qed.
-  Lemma interior_self_nodes_map : forall t evs, interior_self_nodes (map_tring t) (map ME evs) = map T (interior_self_nodes t evs).
+  Lemma interior_self_nodes_map : forall b r, interior_self_nodes b (map T r) = map T (interior_self_nodes b r).
   Proof.
-    intros t evs. unfold interior_self_nodes. cbv zeta. rewrite touch_pts_map, nodup_pts_map.
-    apply filter_map_comm. intros p. unfold tr_pts, tr_idx, map_tring. cbn [fst snd].
-    rewrite passes_at_map, pairs_map, ring_side_map. apply existsb_map_comm. intros [a b]. cbn [fst snd].
+    intros b r. unfold interior_self_nodes. cbv zeta. rewrite self_events_map, touch_pts_map, nodup_pts_map.
+    apply filter_map_comm. intros p.
+    rewrite passes_at_map, pairs_map, ring_side_map. apply existsb_map_comm. intros [x y]. cbn [fst snd].
     rewrite !pass_on_interior_side_map. reflexivity.
   Qed.
-  Lemma disconnected_set_map : forall flag lw n, disconnected_set flag (map_lw lw) n = map Th (disconnected_set flag lw n).
+  Lemma poly_disconnected_set_map : forall flag a, poly_disconnected_set flag (map_poly T a) = map Th (poly_disconnected_set flag a).
   Proof.
-    intros flag lw n. unfold disconnected_set. rewrite map_app. f_equal.
-    - rewrite (flat_map_ext' _ (fun i => map T (cycle_nodes lw i))) by (intros; apply cycle_nodes_map).
-      rewrite <- map_hp_map. f_equal.
-      induction (List.seq 0 n) as [|i l IH]; [reflexivity|]. cbn [flat_map]. rewrite map_app, IH. reflexivity.
-    - destruct flag; [|reflexivity]. rewrite <- map_hp_map. f_equal.
-      unfold map_lw. cbn [lw_self]. apply flat_map_map_comm. intros [t e]. cbn [fst snd]. apply interior_self_nodes_map.
+    intros flag a. unfold poly_disconnected_set. rewrite poly_rings_map, cycle_nodes_map, map_app, map_hp_map. f_equal.
+    destruct flag; [|reflexivity]. destruct a as [s hs]. unfold map_poly. cbn [fst snd].
+    rewrite interior_self_nodes_map.
+    rewrite (flat_map_map_comm (map T) T _ (interior_self_nodes false)) by (intros; apply interior_self_nodes_map).
+    rewrite <- map_app. apply map_hp_map.
   Qed.
+  Lemma disconnected_set_map : forall flag dps, disconnected_set flag (map (map_poly T) dps) = map Th (disconnected_set flag dps).
+  Proof. intros. unfold disconnected_set. apply flat_map_map_comm. intros. apply poly_disconnected_set_map. Qed.
 
   (* structure *)
   Lemma not_closed_set_map : forall r, not_closed_set (map T r) = map Th (not_closed_set r).
@@ -383,25 +370,28 @@ Section Sim.
   Lemma ring_vsets_map : forall l, ring_vsets (map T l) = map_vsets (ring_vsets l).
   Proof.
     intros. unfold ring_vsets, map_vsets. cbn [map]. rewrite too_few_set_map, not_closed_set_map.
-    change [(map T l, [])] with (map (map_poly T) [(l, [])]).
-    rewrite linework_of_map, ring_self_intersection_set_map. reflexivity.
+    rewrite (dedup_map T (sim_inj _ _ _ S)), ring_self_set_map. reflexivity.
   Qed.
-  Lemma poly_rings_map : forall a, poly_rings (map_poly T a) = map (map T) (poly_rings a).
-  Proof. intros [s hs]. reflexivity. Qed.
+  Lemma dedup_poly_map : forall a, dedup_poly (map_poly T a) = map_poly T (dedup_poly a).
+  Proof.
+    intros [s hs]. unfold dedup_poly, map_poly. cbn [fst snd]. rewrite (dedup_map T (sim_inj _ _ _ S)). f_equal.
+    rewrite (filter_map_comm _ _ (@nonempty pt)) by (intros; apply nonempty_map).
+    rewrite !map_map. apply map_ext. intros. apply (dedup_map T (sim_inj _ _ _ S)).
+  Qed.
+  Lemma norm_polys_map : forall ps, norm_polys (map (map_poly T) ps) = map (map_poly T) (norm_polys ps).
+  Proof.
+    intros. unfold norm_polys. rewrite live_polys_map, !map_map. apply map_ext. intros. apply dedup_poly_map.
+  Qed.
   Lemma polygonal_vsets_map : forall flag ps, polygonal_vsets flag (map (map_poly T) ps) = map_vsets (polygonal_vsets flag ps).
   Proof.
     intros flag ps. unfold polygonal_vsets, map_vsets. cbv zeta. cbn [map].
-    rewrite linework_of_map, live_polys_map, map_length, self_intersection_set_map, disconnected_set_map.
+    rewrite norm_polys_map, all_rings_map, live_polys_map, self_intersection_set_map, disconnected_set_map, nested_shells_set_map.
     repeat f_equal.
     - apply flat_map_map_comm. intros a. rewrite poly_rings_map. apply flat_map_map_comm. intros r. apply not_closed_set_map.
     - apply flat_map_map_comm. intros a. rewrite poly_rings_map. apply flat_map_map_comm. intros r. apply too_few_set_map.
     - destruct flag; [reflexivity | apply ring_self_intersection_set_map].
-    - rewrite map_map. rewrite (map_ext _ (fun a => map_poly T (dedup_poly a))) by (intros; apply dedup_poly_map).
-      rewrite <- (map_map dedup_poly (map_poly T)). apply flat_map_map_comm. intros. apply hole_outside_set_map.
-    - rewrite map_map. rewrite (map_ext _ (fun a => map_poly T (dedup_poly a))) by (intros; apply dedup_poly_map).
-      rewrite <- (map_map dedup_poly (map_poly T)). apply flat_map_map_comm. intros. apply nested_holes_set_map.
-    - rewrite map_map. rewrite (map_ext _ (fun a => map_poly T (dedup_poly a))) by (intros; apply dedup_poly_map).
-      rewrite <- (map_map dedup_poly (map_poly T)). apply nested_shells_set_map.
+    - apply flat_map_map_comm. intros. apply hole_outside_set_map.
+    - apply flat_map_map_comm. intros. apply nested_holes_set_map.
   Qed.
   Theorem vsets_of_map : forall flag g, vsets_of flag (map_geom T g) = map_vsets (vsets_of flag g).
   Proof.
